@@ -105,3 +105,12 @@ claim('C17',
       "arguments dimensionless; _fsign is checked by a syntactic units walk for literal thresholds against dimensional quantities.",
       "Trusted: the role table (DESIGN.md app. B); homogeneity of all coefficients implies the scaling of the solved values through C04.",
       "units (dimension) abstract domain evaluated on statically extracted stencil expressions", "DESIGN.md 5 C17")
+
+claim('C07',
+      "Static: a sufficient M-matrix structure is decided on the extracted rows of every class: in a sign domain (D>=0, sizes>0, r>=0, sin>0, every "
+      "sign case of each face velocity) all off-diagonal entries of -diffusion and +upwind (including boundary-corrected and ghost-coupling "
+      "entries) are <= 0; row sums are the exact identities 0 / div u / alpha/dt / beta; ghost elimination by the extracted Dirichlet and no-flux "
+      "ghost formulas is an affine combination with non-negative data weight, and the ghost weights solved from the periodic rows are examined "
+      "for non-negativity. The M-matrix theorem bridges from structure to the range property for div u = 0.",
+      "Trusted: weakly-chained-diagonally-dominant Z-matrix => inverse non-negative; sign domain by positive-increment substitution.",
+      "sign-domain abstract interpretation of statically extracted stencil rows + exact row-sum identities", "DESIGN.md 5 C07")
